@@ -280,6 +280,10 @@ def attribute(res):
         e['obligation'] = oid
         e['tags'] = sorted(tags)
         e['origin_line'] = fl
+        # the function lost its proof overlay (extract.py degraded mode) and still has loops: a failure there is most likely a missing
+        # invariant, so it is undecided; in loop-free code the contract alone decides
+        e['undecided_shape'] = bool(f and f.get('degraded') and f.get('has_loops'))
+        e['degraded'] = (f.get('degraded') if f else None)
 
 
 def scan_assumptions(res):
